@@ -84,11 +84,12 @@ class C09(Prop):
                 yield R.case_rt(inp["marker"])
             else:
                 yield R.case_eq(inp["a"], inp["b"])
-        k = 0
-        while k < n:
+        k = misses = 0
+        while k < n and misses < 20000:          # (bounded: a generator must end even if nothing can be rendered any more)
             try:
                 tree, s = self._text(rng)
             except G.OutOfDomain:
+                misses += 1
                 continue
             k += 1
             r = rng.random()
